@@ -196,6 +196,10 @@ def _live(case: Dict[str, Any], res: CaseResult) -> None:
     else:
         P = _live_prog("waitev" if kind == "event" else "barrier", k, case.get("attrs"))
     b = prog.build(P, is_async=True, mc=mc)
+    if (case.get("attrs") or {}).get("reconf"):
+        # a configuration reload that only mentions priorities: everything else (the resources!) stays as declared
+        b.dag.config_from_dict({"nodes": {"s0": {"priority": 1}, "s1": {"priority": 0}}})
+        res.cls("live-after-config-reload")
     prog.LIVE.clear()
     prog.LIVE.update(event=threading.Event(), barrier=threading.Barrier(k), timeout=LIVE_TIMEOUT, timed_out=False)
     loop_thread = threading.get_ident()
@@ -205,6 +209,15 @@ def _live(case: Dict[str, Any], res: CaseResult) -> None:
         # called from a helper thread shortly before the probes give up
         fr = sys._current_frames().get(loop_thread)
         witness["frames"] = [f"{f.filename}:{f.lineno}:{f.name}" for f in traceback.extract_stack(fr)] if fr else []
+        for t in list(ex.toks):
+            try:
+                inside = sum(1 for u in ex.toks if u.pool is t.pool and u.site is not None and not u.future.done())
+                if t.site is None and t.pool is not None and inside >= t.pool._max_workers and t.pool._work_queue.qsize() > 0:
+                    witness["shared_pool"] = (f"a node of one await cannot start because every worker of the pool it was handed to is busy with "
+                                              f"nodes of other awaits ({t.pool._max_workers} worker(s), {inside} nodes inside their functions): the awaits share a pool")
+                    break
+            except Exception:  # noqa: BLE001
+                pass
 
     timer = threading.Timer(LIVE_TIMEOUT * 0.8, sampler)
     timer.daemon = True
@@ -218,6 +231,10 @@ def _live(case: Dict[str, Any], res: CaseResult) -> None:
 
     async def main() -> Any:
         n = 1 if kind in ("event", "fail") else k
+        if (case.get("attrs") or {}).get("small_loop_pool"):
+            # the user's loop has a one-worker default executor; every await brings its own pool, so the gathered
+            # executions must not depend on it
+            asyncio.get_running_loop().set_default_executor(sched.CtlPool(max_workers=1))
         coros = [b.dag(i) for i in range(n)]
         return await asyncio.gather(sibling(), *coros, return_exceptions=True)
 
@@ -237,6 +254,11 @@ def _live(case: Dict[str, Any], res: CaseResult) -> None:
     if kind == "fail" and not any(isinstance(v, BaseException) for v in vals):
         res.viol("failure-swallowed", "the failing node did not fail the await")
     if prog.LIVE.get("timed_out"):
+        # structural witness for "the gathered awaits are not isolated": nodes of different awaits queue behind each
+        # other in one pool whose workers are all inside node functions
+        if witness.get("shared_pool"):
+            res.viol("gathered-awaits-share-a-pool", witness["shared_pool"])
+            return
         frames = witness.get("frames", [])
         below = False
         blocking = False
@@ -271,7 +293,8 @@ def cases(draw: Any, tier: str) -> Dict[str, Any]:
         return {"family": "live", "live": draw(st.sampled_from(["event", "barrier", "fail"])), "k": draw(st.integers(2, 4)),
                 "config": {"mc": draw(st.integers(1, 3))}, "fail_res": draw(st.sampled_from(["async-thread", "thread", "main-thread"])),
                 # the waiting async-thread node may be sequential / prioritised: the loop must stay free all the same
-                "attrs": {"seq_w": draw(st.booleans()), "seq_a": draw(st.booleans()), "prio_w": draw(st.integers(-2, 2))}}
+                "attrs": {"seq_w": draw(st.booleans()), "seq_a": draw(st.booleans()), "prio_w": draw(st.integers(-2, 2)),
+                          "reconf": draw(st.booleans()), "small_loop_pool": draw(st.booleans())}}
     c = draw(richgen.rich_case(depth=1, max_stmts=7, flag_w=5, debug_w=1, split_w=1, seqop_w=1))
     P = c["prog"]
     sites = prog.sites_of(P)
